@@ -14,7 +14,7 @@ From Verif Require Import Common.Bytes.
 Import ListNotations.
 Local Open Scope Z_scope.
 
-Definition rune := Z.
+Notation rune := Z (only parsing).     (* a Unicode code point *)
 
 Definition is_digit (r : rune) : bool := (48 <=? r) && (r <=? 57).
 
@@ -114,9 +114,10 @@ Definition step_op (rg : regs) (nx : option rune) : step_res :=
   end.
 
 (* func inBoostState / inTildeState (same code, different token) *)
+Definition or1 (b : list rune) : list rune := match b with [] => [49] | _ :: _ => b end.   (* if l.buf == "" { l.buf = "1" } *)
+
 Definition step_until_space (k : tokkind) (self : lstate) (rg : regs) (nx : option rune) : step_res :=
-  let fin := SR (Some SStart) true (reset rg)
-                (Some (Tok k (match buf rg with [] => [49] | b => b end))) in
+  let fin := SR (Some SStart) true (reset rg) (Some (Tok k (or1 (buf rg)))) in
   match nx with
   | None => fin
   | Some r =>
